@@ -451,6 +451,14 @@ def bpe_train(char_list, vocab_size=10000, min_count=1, max_char_code=0):
         else:
             break
 
+    # When the vocabulary budget (rather than the break above) ends the loop, the
+    # merge recorded last has not been applied to the training arrays yet
+    if len(tokens) >= vocab_size:
+        for i, char_array in enumerate(compressed_chars):
+            compressed_chars[i], pair_counts = contract_and_count_pairs(
+                char_array, pair_to_replace, pair_counts, new_code
+            )
+
     return tokens, code_list, compressed_chars, max_char_code
 
 
